@@ -3,7 +3,7 @@ from contracts import stochastic as _s
 
 META = {
     'level_text': 'Proof under the library contract "a Generator from default_rng(seed) is a deterministic function of the seed and of the sequence of calls made on it": for EVERY integer seed (0 included) shot_noise (Poisson), read_noise (float and integer frames), dark_current and rule07_dark_current with pattern noise are deterministic in (arguments, seed) and never touch the module-level NumPy random functions; Poisson shot noise is non-negative, integer-valued and shaped like its input, a frame with a negative count is refused with ValueError; read noise is input + normal(0, electrons) draw at every pixel also for integer frames; a dark frame without pattern noise is floor(rate) on any shape. wfe.power_spectrum on the real code for every mask shape (numpy fft2 / ifft2 abstract): the only randomness is the first normal(size=[n, m]) draw of default_rng(seed), no global RNG; the result is mask * filtered noise * ONE factor rms * sqrt(N / sum masked^2) (both normalising sums identified by Sigma-extensionality), hence zero outside the mask and sum(result^2) = rms^2 * N over the N non-zero masked samples - the exact requested RMS - with the shape of the mask, square or not. Moments, "different seeds give different draws", power_spectrum end to end (FFT filter, determinism through the FFT) and cosmic_rays (shape, sign, finiteness over global random states) are bounded native stand-ins - no contract within reach can decide statistical moments.',
-    'level_note': 'numpy Generator methods are uninterpreted functions of (seed, call number, index, distribution parameters) with only support axioms (Poisson >= 0 integer, lognormal > 0). The numerical FFTs inside power_spectrum (fresh abstract arrays per call: determinism of the filtered noise itself is numpy's) and the ray tracer of cosmic_rays are outside the verifier.',
+    'level_note': 'numpy Generator methods are uninterpreted functions of (seed, call number, index, distribution parameters) with only support axioms (Poisson >= 0 integer, lognormal > 0). The numerical FFTs inside power_spectrum (fresh abstract arrays per call: determinism of the filtered noise itself is left to numpy) and the ray tracer of cosmic_rays are outside the verifier.',
 }
 FUNCTIONS = []
 LEMMAS = _s.lemmas()
